@@ -125,22 +125,34 @@ def normalise_doc(d, top=True):
 
 
 def np_columns(data_rows):
-    """rows of cells -> one numpy array per column (the quantity lambdas index the record by column)"""
+    """rows of cells -> a numpy record array with one field per column (c0..c7), the input form
+    fill.numpy supports for every primitive (sliced with boolean masks by the sparse containers)"""
     import numpy as np
 
-    cols = []
     n = len(data_rows)
+    dt = []
     for c in range(gen.NCOLS):
-        vals = [r[c] for r in data_rows]
         if c in gen.NUM_COLS:
-            cols.append(np.array([float(v) for v in vals], dtype=np.float64))
+            dt.append(("c%d" % c, "f8"))
         elif c == gen.BOOL_COL:
-            cols.append(np.array([bool(v) for v in vals], dtype=bool))
+            dt.append(("c%d" % c, "?"))
         elif c == gen.VEC_COL:
-            cols.append(np.array([[float(x) for x in v] for v in vals], dtype=np.float64).reshape(n, 2))
+            dt.append(("c%d" % c, "f8", (2,)))
         else:
-            cols.append(np.array(["NaN" if v is None else str(v) for v in vals], dtype=object if False else "U8"))
-    return cols
+            dt.append(("c%d" % c, "U8"))
+    arr = np.zeros(n, dtype=dt)
+    for i, r in enumerate(data_rows):
+        for c in range(gen.NCOLS):
+            v = r[c]
+            if c in gen.NUM_COLS:
+                arr["c%d" % c][i] = float(v)
+            elif c == gen.BOOL_COL:
+                arr["c%d" % c][i] = bool(v)
+            elif c == gen.VEC_COL:
+                arr["c%d" % c][i] = [float(x) for x in v]
+            else:
+                arr["c%d" % c][i] = "NaN" if v is None else str(v)
+    return arr.view(np.recarray)
 
 
 def prune_doc(d):
@@ -220,7 +232,7 @@ class PyExec:
 
             rows, mode = op[2], op[3]
             data = np_columns([r[0] for r in rows])
-            before = [c.copy() for c in data]
+            before = data.tobytes()
             try:
                 if mode == "unit":
                     P[op[1]].fill.numpy(data)
@@ -236,11 +248,8 @@ class PyExec:
             except Exception as e:  # noqa: BLE001
                 self.np_filled.add(op[1])
                 return classify(e)
-            for c, b in zip(data, before):
-                same = (c.dtype == b.dtype and c.shape == b.shape and
-                        (np.array_equal(c, b, equal_nan=True) if c.dtype.kind in "fc" else np.array_equal(c, b)))
-                if not same:
-                    return "violation: fill.numpy modified an input array"
+            if data.tobytes() != before:
+                return "violation: fill.numpy modified an input array"
             return "ok"
         if k == "add":
             try:
@@ -369,6 +378,8 @@ def op_to_wire(op):
         return ["$eq", "$" + op[1], "$" + op[2], num_to_wire(op[3]), num_to_wire(op[4])]
     if k == "drop":
         return ["$drop", "$" + op[1]]
+    if k == "goodrun":
+        return ["$goodrun", "$" + op[1], [[[cell_to_wire(c) for c in d], num_to_wire(w)] for d, w in op[2]]]
     if k == "immut":
         return ["$immut", "$" + op[1], "$" + op[2]]
     if k in ("good", "iszero", "uniform", "liveok", "inv", "singlepath", "hastmpl", "nobins"):
@@ -445,6 +456,16 @@ def run_history(ops, model, check_states=True, py=None, replies=None, model_ops=
             queue = list(expander(op, py)) + queue
             continue
         i += 1
+        if op[0] == "mcheck":
+            # model-only: an executable hypothesis of the property theorems, evaluated on the model's
+            # copy of a state the real run reached
+            if first is None:
+                rm = model.apply(tuple(op[1]))
+                if rm != op[2]:
+                    first = {"index": i, "op": _brief(op), "what": "hypothesis %s of the theorems is %r on a reachable state (expected %r)" % (op[1][0], rm, op[2])}
+            if replies is not None:
+                replies.append("ok")
+            continue
         op = expand(op, py)
         try:
             rp = py.apply(op)
